@@ -79,6 +79,8 @@ def analyse(rep, prog, name, full):
     last = max(rets, key=lambda x: x[0].order) if rets else None
     main = [x for x in rets if extra_of(x[1]) == extra_of(last[1])]
     special = [x for x in rets if extra_of(x[1]) != extra_of(last[1])]
+    if len(rets) == 2 and sum(1 for x in rets if x[2][0] == "tuple" and len(x[2][1]) == 2) == 1:
+        main, special = list(rets), []          # the two documented forms, whatever their conditions are (judged by PERM.switch)
     mats, ords = [], []
     for r, path, v in main:
         if v[0] == "tuple" and len(v[1]) == 2:
@@ -95,7 +97,8 @@ def analyse(rep, prog, name, full):
     rep.check("PERM.both-paths", same, fwhere(f), "both return paths hand out the same matrix", "the matrix differs between return_ordering=True and False")
     withord = ords[0]
     pc = conj(withord[2])
-    pc = pc - extra_of(withord[2])
+    if special:
+        pc = pc - extra_of(withord[2])
     rep.check("PERM.switch", pc == frozenset([("atom", RO, True)]), fwhere(f, withord[1].node), "ordering returned iff return_ordering",
               "ordering is returned under %s" % [pred_fmt(x) for x in pc])
     # permutation
